@@ -51,6 +51,9 @@ def gen_cases(tier, seed):
         cases.append({"kind": "run", "seed": int(rng.integers(2**31)), "profile": ["slow-decay", "geometric"][i % 2], "rmse_exp": float(rng.uniform(-1.2, -0.3)),
                       "L0": int(rng.choice([1, 2, 3])), "N0": int(rng.choice([20, 100])), "Lmax_extra": int(rng.integers(3, 8)), "beta": float(rng.uniform(0.2, 2 * al)),
                       "alpha": al, "rates_given": True, "scale": 1.0, "budget": 150_000})
+    # no initial path at all: refused by the configuration, or a run like any other
+    cases.append({"kind": "run", "seed": int(rng.integers(2**31)), "profile": "geometric", "rmse_exp": -0.8, "L0": 2, "N0": 0, "Lmax_extra": 3, "beta": 1.5, "alpha": 1.0,
+                  "rates_given": True, "scale": 1.0, "budget": 150_000})
     # a maximum level computed from a formula (not a whole number, or a whole number held in a float)
     for i in range(4 if tier == "quick" else 30):
         cases.append({"kind": "run", "seed": int(rng.integers(2**31)), "profile": ["slow-decay", "plateau"][i % 2], "rmse_exp": float(rng.uniform(-1.6, -0.9)),
@@ -267,6 +270,10 @@ def _run(case, R):
             R.hit("inconsistent_levels_refused")
             R.skip("refused-by-configuration: maximum level below the initial level")
             return
+        if N0 < 1:
+            R.hit("no_initial_path_refused")
+            R.skip("refused-by-configuration: no initial path")
+            return
         raise
     if Lmax < L0:
         R.hit("inconsistent_levels_accepted")
@@ -319,6 +326,10 @@ def _run(case, R):
         levels = [e[1] for e in cp.log.events if e[0] == "sample"]
         if n_written() != cp.counters.total():
             R.violation("samples-simulated-but-not-stored", f"{cp.counters.total()} samples simulated, {n_written()} handed to the statistics", wit)
+    if not levels:
+        R.violation("returned-without-a-sample", f"price() returned without simulating any sample (initial_mc_paths = {N0}), no stopping test, "
+                    f"level {len(st.mc_statistics) - 1} < maximum_level = {Lmax}", wit)
+        return
     top = max(levels)
     nlev = len(st.mc_statistics)
     if top > Lmax or nlev - 1 > Lmax:
